@@ -489,7 +489,8 @@ fn base(family: Ty, values: Vec<ValSpec>) -> C15 {
 fn generate_single(r: &mut Rng, tier: Tier) -> C15 {
     let family = *r.pick(IO_TYS);
     let big = r.chance(1, if tier == Tier::Thorough { 40 } else { 400 });
-    let nframes = if big { r.range(1, 2) } else { 1 + r.below(8) } as usize;
+    let max_frames = if tier == Tier::Thorough && r.chance(1, 4) { 20 } else { 8 };
+    let nframes = if big { r.range(1, 2) } else { 1 + r.below(max_frames) } as usize;
     // size profile of this run
     let profile = r.below(4);
     let values: Vec<ValSpec> = (0..nframes)
@@ -511,7 +512,8 @@ fn generate_single(r: &mut Rng, tier: Tier) -> C15 {
     let en_cut = r.chance(1, 4);
     let density = *r.pick(&[1u64, 1, 3, 8]); // out of 16
     let gran = *r.pick(&[1u32, 2, 4, 4, 16, 64, 1024]);
-    let lane_len = r.usize_in(0, if tier == Tier::Quick { 64 } else { 96 });
+    let lane_max = if tier == Tier::Quick { 64 } else if r.chance(1, 4) { 200 } else { 96 };
+    let lane_len = r.usize_in(0, lane_max);
     let mut src = Vec::with_capacity(lane_len);
     for _ in 0..lane_len {
         let roll = r.below(16);
@@ -747,7 +749,7 @@ impl Property for P15 {
     fn random_runs(tier: Tier) -> u64 {
         match tier {
             Tier::Quick => 1_500_000,
-            Tier::Thorough => 60_000_000,
+            Tier::Thorough => 150_000_000,
         }
     }
 
